@@ -229,6 +229,18 @@ impl Settings {
                 tags
             });
 
+        if exports.contains(&ExportType::Equity) {
+            // the equity export writes this name as a posting account:
+            // it must be an account name the journal parser accepts
+            let eqa = cfg.export.equity.equity_account.as_str();
+            let valid = AccountTreeNode::from(eqa).is_ok()
+                && eqa.split(':').next().is_some_and(parser::is_valid_id);
+            if !valid {
+                let msg = format!("Invalid `equity.equity-account`: '{eqa}'");
+                return Err(msg.into());
+            }
+        }
+
         if strict_mode
             && exports.contains(&ExportType::Equity)
             && !account_trees
